@@ -114,6 +114,8 @@ def b_len(eng, st, args, kwargs, node):
         return SV(KInt, eng.harr(st, n)[v.term])
     if isinstance(k, KTuple):
         return sv_int(len(k.items))
+    if isinstance(k, KRef) and ("len_hook:" + k.cls) in eng.reg.specfuncs:
+        return eng.reg.specfuncs["len_hook:" + k.cls](eng, st, v)
     if k is KStr:
         return SV(KInt, z3.Length(v.term))
     if k is KConst and isinstance(v.const, EmptyLit):
@@ -833,6 +835,11 @@ def comprehension(eng, st, node, what, frame=None):
             st.ghost.setdefault("comp", {})[out.term.get_id()] = (srcidx, pos, m)
         st.heap[e_] = z3.Store(eng.harr(st, e_), out.term, arr)
         eng.set_is_tuple(st, out, False)
+        # ghost: a comprehension `[f(x) for x in src]` without filter remembers its source list (used by the
+        # serialisation model of the journal file backend)
+        if not g.ifs and isinstance(src.kind, KList) and isinstance(node.elt, ast.Call) and node.elt.args \
+                and isinstance(node.elt.args[0], ast.Name) and isinstance(g.target, ast.Name) and node.elt.args[0].id == g.target.id:
+            st.ghost.setdefault("comp_src", {})[out.term.get_id()] = src
         return out
     if what == "dict":
         conds, (kx, vx) = pure_at(j)
